@@ -19,7 +19,7 @@ from runner import HarnessError
 
 PID = "C42"
 LEVEL = "exploration"
-RULE = ("all 1200 renderings of every 2-/3-leaf tree over & | juxtaposition with every placement of ! (exhaustive), plus "
+RULE = ("all renderings (2 styles) of every 2-/3-leaf tree over & | juxtaposition with every placement of ! (exhaustive), plus "
         "Hypothesis trees (<=7 atoms, paren nesting <=2) over all 14 unary, 17 regex, ~c and naked-regex atoms with "
         "! & | juxtaposition and redundant parentheses, rendered with varied whitespace/parenthesisation/quoting, each "
         "evaluated on 36 pool flows of all types + 2 case-specific flows; non-trivial = tree has >=2 different "
@@ -110,7 +110,8 @@ def _trees(max_paren=2):
             st.tuples(st.just("P"), ch, _STYLE),
         )
 
-    return st.recursive(atom, ext, max_leaves=7).filter(lambda t: rf.paren_depth(t) <= max_paren and _depth(t) <= 5)
+    return st.recursive(atom, ext, max_leaves=7).filter(lambda t: rf.paren_depth(t) <= max_paren and _depth(t) <= 5 and
+                                                          not (rf.j_in_parens(t) and rf.paren_depth(t) >= 2))
 
 
 def _depth(t):
@@ -153,7 +154,9 @@ def _small_trees():
                     out.append(neg([op1, [inner, neg(C, n[4], 0)], sp | (3 << 3) | (3 << 8)], n[0], 3 << 3))
                     inner = neg([op2, [neg(B, n[2], 0), neg(C, n[3], 0)], sp], n[1], 0)
                     out.append(neg([op1, [neg(A, n[4], 0), inner], sp | (3 << 3) | (3 << 8)], n[0], 3 << 3))
-    return out
+    # juxtaposition inside parentheses is rejected by the current grammar (known finding) only after exponential
+    # backtracking (seconds per expression); those trees are left to the random part
+    return [t for t in out if not rf.j_in_parens(t)]
 
 
 def run(ctx):
